@@ -649,7 +649,7 @@ theorem bfull_case_extended_identifier_untouched (E : Case.Env) (p : Params) (l 
     produces points at a formal-part token that is not an extended identifier (nor a literal) -/
 theorem bfull_case_formal_extended_untouched {E : Case.Env} {fold : Str → Str} {lc uc fc : Char → Char}
     (T : CharWise E fold lc uc fc) (c : FormalPart.Classes) (p : Params) (l : List Tok)
-    (acts : List Action) (a : Action) (hn : p.name ≠ bitStringLiteral) (hnd : NoCaseDup E p.exceptions)
+    (acts : List Action) (a : Action) (hn : p.name ≠ bitStringLiteral)
     (ha : FormalPart.analyzeToi E c p l = .ok acts) (hm : a ∈ acts) :
     ∃ (j : Nat) (t : Tok), a.index = (j : Int) ∧ l[j]? = some t ∧ t.cls = c.formal ∧
       t.val.head? ≠ some '\\' ∧ isExact t.val = false := by
@@ -664,7 +664,7 @@ theorem bfull_case_formal_extended_untouched {E : Case.Env} {fold : Str → Str}
       | true =>
         rw [hd, Bool.and_true] at hs
         exact absurd (by simpa using hs) hn
-    exact ⟨j, t, check_index T hnd hchk, hj, hcls, not_backslash_of_not_skip hd, by rw [isExact_eq_skip, hd]⟩
+    exact ⟨j, t, check_index T hchk, hj, hcls, not_backslash_of_not_skip hd, by rw [isExact_eq_skip, hd]⟩
 
 /-- the former witness, on the repaired model: `\Ab\` under the default `case: lower` is not reported,
     while the plain identifier `Ab` still is -/
@@ -678,12 +678,12 @@ theorem bfull_case_extended_identifier_witness :
     Consistent.expectedFirst (asciiEnv fun _ _ => false) ["Ab".toList] "ab".toList = some "Ab".toList := by
   refine ⟨by decide +kernel, by decide +kernel, by decide +kernel, by decide +kernel, by decide +kernel⟩
 
-/-- B-FULL, formal parts of port / generic maps (2 rules) — PARTIAL: no word twice in different case
-    in `case_exceptions` -/
-theorem bfull_case_formal_caseOnly_partial {E : Case.Env} {fold : Str → Str} {lc uc fc : Char → Char}
+/-- B-FULL, formal parts of port / generic maps (2 rules), for every `case_exceptions` list (the former
+    hypothesis "no word twice in different case" is gone with the repo repair of `check_for_exception`) -/
+theorem bfull_case_formal_caseOnly {E : Case.Env} {fold : Str → Str} {lc uc fc : Char → Char}
     (T : CharWise E fold lc uc fc) (owner : String) (ho : owner ∈ Base.caseFormalOwners)
     (params : Base.KV) (c : FormalPart.Classes) (p : Params) (old new : List Tok) (acts : List Action)
-    (a : Action) (hnd : NoCaseDup E p.exceptions)
+    (a : Action)
     (hok : ∀ t ∈ old, t.cls = c.formal → TokOk p t)
     (ha : FormalPart.analyzeToi E c p old = .ok acts) (hm : a ∈ acts)
     (hf : Base.fixByOwner owner params (Base.caseActionKV a) old = some (.ok new)) :
@@ -691,22 +691,23 @@ theorem bfull_case_formal_caseOnly_partial {E : Case.Env} {fold : Str → Str} {
       codeSeq fold old = codeSeq fold new ∧ commentSeq old = commentSeq new := by
   rw [Base.fixByOwner_formal owner ho] at hf
   simp only [Option.some.injEq] at hf
-  have h := FormalPart.analyze_fix_caseOnly_partial T c p old new acts a hnd hok ha hm hf
+  have h := FormalPart.analyze_fix_caseOnly T c p old new acts a hok ha hm hf
   exact ⟨h, h.length fold, h.codeSeq fold, h.commentSeq fold⟩
 
-/-- EXCLUDED CASE of the partial theorem, proved on the model: with `case_exceptions: [Clk, CLK]`
-    `check_for_exception` records the position of the word in that list (0) as the token index and
-    the fix overwrites token 0 of the region — the instantiation label.  Reproduced on the real code. -/
-theorem bfull_case_formal_index_witness :
+/-- the former EXCLUDED CASE (`bfull_case_formal_index_witness`), on the repaired model: with
+    `case_exceptions: [Clk, CLK]` the action for the formal part `CLK` carries the position of that token (2),
+    the fix writes `Clk` there and the instantiation label `u_x` — token 0, which the unrepaired code
+    overwrote — stays.  The same region is replayed on the real class. -/
+theorem bfull_case_formal_index_repaired :
     ∃ (c : FormalPart.Classes) (p : Params) (old new : List Tok) (a : Action),
-      FormalPart.analyzeToi (asciiEnv fun _ _ => false) c p old = .ok [a] ∧
+      FormalPart.analyzeToi (asciiEnv fun _ _ => false) c p old = .ok [a] ∧ a.index = 2 ∧
       Base.fixByOwner Base.caseFormalOwners.head! [] (Base.caseActionKV a) old = some (.ok new) ∧
-      codeSeq asciiLowerS old ≠ codeSeq asciiLowerS new :=
+      new[0]? = old[0]? ∧ codeSeq asciiLowerS old = codeSeq asciiLowerS new :=
   ⟨{ mapStart := 1, mapEnd := 2, formal := 3, assign := 4 },
     { name := "port_map".toList, style := .lower, prefixes := [], suffixes := [], exceptions := ["Clk".toList, "CLK".toList] },
     [⟨0, .code, "u_x".toList⟩, ⟨1, .code, "(".toList⟩, ⟨3, .code, "CLK".toList⟩, ⟨4, .code, "=>".toList⟩],
-    [⟨0, .code, "Clk".toList⟩, ⟨1, .code, "(".toList⟩, ⟨3, .code, "CLK".toList⟩, ⟨4, .code, "=>".toList⟩],
-    { value := some "Clk".toList, index := 0 }, by decide +kernel, by decide +kernel, by decide +kernel⟩
+    [⟨0, .code, "u_x".toList⟩, ⟨1, .code, "(".toList⟩, ⟨3, .code, "Clk".toList⟩, ⟨4, .code, "=>".toList⟩],
+    { value := some "Clk".toList, index := 2 }, by decide +kernel, rfl, by decide +kernel, rfl, by decide +kernel⟩
 
 /-- B-FULL (value part), `consistent_token_case` (10 rules): the expected spelling is the first
     declared identifier that equals the name after `lower()`.  The former hypothesis `t.exact = false`
